@@ -504,16 +504,20 @@ mod verif_proofs {
         let https: bool = kani::any();
         let Some(url) = origin_url(Some(host), https) else { return };
         let verifier = RpIdVerifier::new(TinyPsl).allows_insecure_localhost(true);
-        let r = verifier.assert_web_rp_id(&url, None);
+        // the RP ID: absent, or the parent name "localhost" itself (which such a host may NOT claim: the
+        // exemption is for the literal host only, and "localhost" alone is not a registrable domain)
+        let claims_localhost: bool = kani::any();
+        let r = verifier.assert_web_rp_id(&url, claims_localhost.then_some("localhost"));
         // "<x>localhost" is a single label (not registrable); "<x>.localhost" is registrable under the
         // implicit rule and then needs https like any other origin
         match r {
-            Ok(_) => assert!(dotted && https),
-            Err(_) => assert!(!(dotted && https)),
+            Ok(_) => assert!(dotted && https && !claims_localhost),
+            Err(_) => assert!(!(dotted && https && !claims_localhost)),
         }
         assert!(verifier.is_valid_rp_id(host) == dotted);
-        kani::cover!(dotted && https);
+        kani::cover!(dotted && https && !claims_localhost);
         kani::cover!(!dotted);
+        kani::cover!(dotted && claims_localhost);
         core::mem::forget(verifier);
         core::mem::forget(url);
     }
